@@ -419,3 +419,30 @@ Definition expected_load {St} (m b : fclass St) : list St :=
   | _, FGood s => [s]
   | _, _ => []
   end.
+
+(* ================= what C12 / C13 demand of the observations ================= *)
+
+(* the next save runs to completion, leaves need_save clear, and a start-up then loads exactly next *)
+Definition again_spec {St} (next : St) (a : again St) : Prop :=
+  a_status a = Done /\ a_need_save a = false /\ a_loaded a = LOk [next].
+
+(* after a crash: start-up loads exactly the new state or exactly the previous one (nothing, if there
+   was no file before) - never an empty, partial or mixed network when a good file existed; what is
+   left on disk is again a legal prior configuration; and the next save + load round-trips *)
+Definition crash_spec {St} (c : cfg) (old new next : St) (o : crash_obs St) : Prop :=
+  (co_loaded o = LOk [new] \/ co_loaded o = LOk (if c_main c then [old] else [])) /\
+  (exists c', co_cfg o = Some c' /\ cfg_valid c' = true) /\
+  again_spec next (co_again o).
+
+(* after a failing operation: the exception leaves save_sensors with need_save set again; need_save
+   is clear only if the new file is completely and durably in place; a start-up at this point loads
+   old or new; the next save by the same process succeeds *)
+Definition fault_spec {St} (c : cfg) (old new next : St) (o : fault_obs St) : Prop :=
+  fo_status o <> Crashed /\
+  (fo_status o = Raised -> fo_need_save o = true) /\
+  (fo_need_save o = false -> fo_main o = Some (synced (CGood new))) /\
+  (fo_loaded o = LOk [new] \/ fo_loaded o = LOk (if c_main c then [old] else [])) /\
+  again_spec next (fo_again o).
+
+Definition class_ok {St} (dmg : list cls) (f : fclass St) : Prop :=
+  match f with FBad e => In e dmg | _ => True end.
